@@ -4,6 +4,7 @@ CONSTANTS
   MaxDepth = 3
   StmtDepth = 2
   Effects = FALSE
+  Focus = "all"
   Quirks = FALSE
   EnvCap = 12
   RetTypes <- MC_RetAll
